@@ -101,7 +101,7 @@ def run(tier):
                                                          ".".join(map(str, fails))),
                          case="kundur/kundur_full.json", family="trip", segs=[1.2], fail=fails, tds=tds,
                          events=[dict(add="Toggle", model="Line", dev="Line_8", t=0.5)]))
-    real += tdsfam.time_constant_scenarios()
+    real += tdsfam.time_constant_scenarios() + tdsfam.tiny_step_scenarios()
     out = tdsfam.run_and_validate(real, rep, timeout=600, label="failure plans")
     tdsfam.judge(PID, out, rep)
     for sc, o in out[:2]:
